@@ -150,7 +150,9 @@ func run(c Case) (v vkit.Verdict) {
 				return false
 			}
 			for i := range a {
-				if a[i] != b[i] {
+				// bit for bit: a member (0, -0) is not a window of a first member that starts (0, 0) - compared with ==
+				// it was taken for one, handed over with the wrong zero, and the encoder blamed (thorough tier, seed 8)
+				if math.Float64bits(float64(a[i][0])) != math.Float64bits(float64(b[i][0])) || math.Float64bits(float64(a[i][1])) != math.Float64bits(float64(b[i][1])) {
 					return false
 				}
 			}
